@@ -82,7 +82,13 @@ claim("C19", "model_checking",
       "Trusted: the regular expressions parsing the tools' output, the library as reference for the listing comparison (itself bound to the model by C01). monitor/resolve not exercised. Sampled, not exhaustive.",
       "TLC-enumerated populations (CacheSeq) replayed through the built cdi/validate binaries and the library side by side", "5 C19", "cli")
 
+claim("C09", "exploration",
+      "Systematic round-trip exploration driven by a TLA+ generator: slot x string-class x encoding (and integer field x extreme); each value is written by WriteSpec under .json/.yaml/no extension, read back by ReadSpec and loaded by a cache, and must be equal in every field. The model states the write/read state machine; it cannot reason about YAML scalar resolution, so the assurance is that of a large targeted test.",
+      "Exploration only: a pool of 80 hostile strings plus seeded random UTF-8 per slot, not all strings. Equality is semantic (nil = empty, pointers by pointee).",
+      "TLA+-generated slot x string-class x encoding enumeration, round-tripped through WriteSpec/ReadSpec/cache", "5 C09, 8", "roundtrip")
+
 ENGINES = [
+ {"name": "roundtrip", "path": "spec/RoundTrip.tla harness/roundtrip.go", "serves_properties": ["C09"], "kind_free_text": "generator + round-trip harness"},
  {"name": "cli", "path": "harness/cli.go spec/CacheSeq.tla", "serves_properties": ["C19"], "kind_free_text": "built binaries run on model-enumerated populations; stdout/exit status vs library vs model"},
  {"name": "schema", "path": "tools/schema2tla.py spec/Schema.tla harness/schemaoracle.go", "serves_properties": ["C17", "C18"],
   "kind_free_text": "draft-07 subset evaluator in TLA+ over a module generated from the shipped schema files; documents by JSON mutation; all validator entry points"},
